@@ -16,6 +16,7 @@ def main():
     name, prop, wt = sys.argv[1:4]
     tier = "quick"
     needs = ""
+    race = "-race " if "--race" in sys.argv else ""
     args = sys.argv[4:]
     for i, a in enumerate(args):
         if a == "--tier":
@@ -36,7 +37,7 @@ def main():
     shutil.copy(f"{wt}/{demo}", f"{out}/zz_seed_demo_test.go")
     pkg = "./" + os.path.dirname(demo)
     # 2. demo fails with the change
-    rc1, o1 = run(f"go test -vet=off -count=1 -run 'TestSeedDemo$' {pkg}", cwd=wt)
+    rc1, o1 = run(f"go test {race}-vet=off -count=1 -run 'TestSeedDemo$' {pkg}", cwd=wt)
     ran.append({"cmd": f"go test -run TestSeedDemo {pkg} (with change)", "exit": rc1})
     # 3. suite with the change (demo moved aside)
     os.rename(f"{wt}/{demo}", f"{wt}/{demo}.aside")
@@ -48,7 +49,7 @@ def main():
     # (no git stash: the stash is shared between worktrees)
     rcr, orr = run(f"git apply -R {out}/patch.diff", cwd=wt)
     assert rcr == 0, "cannot reverse patch: " + orr
-    rc3, o3 = run(f"go test -vet=off -count=1 -run 'TestSeedDemo$' {pkg}", cwd=wt)
+    rc3, o3 = run(f"go test {race}-vet=off -count=1 -run 'TestSeedDemo$' {pkg}", cwd=wt)
     rca, oa = run(f"git apply {out}/patch.diff", cwd=wt)
     assert rca == 0, "cannot re-apply patch: " + oa
     ran.append({"cmd": f"go test -run TestSeedDemo {pkg} (without change)", "exit": rc3})
